@@ -197,11 +197,14 @@ Proof.
         try (rewrite apply_upd_version; auto). }
       inversion H; subst; clear H. constructor; fin; auto; try discriminate.
       rewrite apply_upd_version; auto.
-    + assert (Hm : moved (v_spec w) u (v_st w) (apply_upd u (v_spec w) js)).
-      { exists js. cbn. repeat split; auto. right. rewrite Hph. reflexivity. }
+    + match type of H with context [apply_upd u ?sp ?b] => set (jc := b) in * end.
+      assert (Hm : moved (v_spec w) u (v_st w) (apply_upd u (v_spec w) jc)).
+      { exists jc. cbn. repeat split; auto. right. rewrite Hph. reflexivity. }
       match type of H with context [status_eq_dec ?a ?b] => destruct (status_eq_dec a b) as [Heq|Hne] end.
-      { inversion H; subst; clear H. constructor; fin; auto; try discriminate.
-        intros _ _; split; auto. rewrite <- Heq; exact Hm. }
+      { assert (Hm' : moved (v_spec w) u (v_st w) js).
+        { exists jc. split; [reflexivity|]. split; [right; rewrite Hph; reflexivity|].
+          split; symmetry; [exact (f_equal st_phase Heq)|exact (f_equal st_retry Heq)]. }
+        inversion H; subst; clear H. constructor; fin; auto; try discriminate. }
       destruct (fails_status F 1).
       { inversion H; subst; clear H. constructor; fin; auto; try discriminate;
         try (rewrite apply_upd_version; auto). }
@@ -222,9 +225,10 @@ Proof.
       { inversion H; subst; clear H. constructor; fin; auto using kept_core_refl; try discriminate. }
       inversion H; subst; clear H. constructor; fin; auto; try discriminate.
       rewrite apply_upd_version; auto.
-    + assert (Hm : moved (v_spec w) u (v_st w) (apply_upd u (v_spec w) (v_st w))).
-      { exists (v_st w). repeat split; auto. }
-      destruct (status_eq_dec (apply_upd u (v_spec w) (v_st w)) (v_st w)) as [Heq|Hne].
+    + match type of H with context [apply_upd u ?sp ?b] => set (jc := b) in * end.
+      assert (Hm : moved (v_spec w) u (v_st w) (apply_upd u (v_spec w) jc)).
+      { exists jc. repeat split; auto. }
+      match type of H with context [status_eq_dec ?a ?b] => destruct (status_eq_dec a b) as [Heq|Hne] end.
       { inversion H; subst; clear H. constructor; fin; auto using kept_core_refl; try discriminate. }
       destruct (fails_status F 0).
       { inversion H; subst; clear H. constructor; fin; auto using kept_core_refl; try discriminate. }
@@ -764,21 +768,21 @@ Definition f2_world : world :=
     (mkStatus PhCompleted 0 0 1 (mkC 0 0 1 0 0) 0 [(1%positive, mkC 0 0 1 0 0)] false false)
     [mkPod 1 0 PSucceeded false false] (Some PgRunning).
 
-(* still refuted after the two fixes: while the PodGroup is not admitted the
-   counters are not recomputed (known finding C05-pgpending-stale-counters) *)
+(* the PRE-FIX syncJob (before "fix: syncJob recounts the pods while the PodGroup is not admitted")
+   wrote a phase change on top of stale counters: Restarting, retryCount >= maxRetry, terminating = 1
+   left by the kill, no pod exists any more => Failed written with terminating = 1.
+   The fixed function writes terminating = 0 on the same input. *)
 Definition pgpending_world : world :=
   init_world one_task_spec
     (mkStatus PhRestarting 3 1 1 c0 1 [] false true) [] None.
-Theorem counters_partition_refuted : ~ counters_partition_statement.
-Proof.
-  intros H.
-  specialize (H pgpending_world sync_req (fst (fst (step_req pgpending_world sync_req []))) true).
-  assert (F : fresh_world pgpending_world) by (repeat split).
-  specialize (H F eq_refl eq_refl). vm_compute in H. discriminate.
-Qed.
-Theorem counters_partition_refuted_pg_pending :
-  exists w', step_req pgpending_world sync_req [] = (w', false, true) /\ fresh_world pgpending_world /\
-             partition_ok (w_st w') (w_pods w') = false /\ st_term (w_st w') = 1 /\ w_pods w' = [].
+Theorem pgpending_counters_prefix_refuted :
+  exists w', sync_job_pgprefix pgpending_world URestarting [] = (w', false, true) /\ fresh_world pgpending_world /\
+             partition_ok (w_st w') (w_pods w') = false /\ st_phase (w_st w') = PhFailed /\
+             st_term (w_st w') = 1 /\ w_pods w' = [].
+Proof. eexists. split; [vm_compute; reflexivity|]. repeat split. Qed.
+Example pgpending_counters_fixed_on_witness :
+  exists w', step_req pgpending_world sync_req [] = (w', false, true) /\
+             partition_ok (w_st w') (w_pods w') = true /\ st_phase (w_st w') = PhFailed /\ st_term (w_st w') = 0.
 Proof. eexists. split; [vm_compute; reflexivity|]. repeat split. Qed.
 
 (* F2 on the PRE-FIX killPods: a Completed job with its retained Succeeded pod;
@@ -871,4 +875,18 @@ Example delayed_action_example :
   st_phase (v_st w3) = PhCompleted /\ st_retry (v_st w3) = 0 /\ d_queue (c_delay (v_ctl w3)) = [] /\
   (* the same timer on a job that is still Running restarts it *)
   st_phase (v_st (run w1 [OFire])) = PhRestarting /\ st_retry (v_st (run w1 [OFire])) = 1.
+Proof. vm_compute. repeat split. Qed.
+
+(* observation (no law of C05 is involved): a timer that expires while the job cache has no Job
+   returns without cleaning its map entry; once the job is known again (re-created under the same
+   name) the same policy for the same pod is "already armed" and no timer is started any more *)
+Example stale_delay_entry_blocks_rearming :
+  let w := init_world delayed_spec (mkStatus PhRunning 0 0 1 (mkC 1 0 0 0 0) 0 [(1%positive, mkC 1 0 0 0 0)] false false)
+                      [mkPod 1 0 PPending false false] (Some PgRunning) in
+  let pending := mkReq EPodPending None (Some 1%positive) (Some (1%positive, 0)) 0 0 2 in
+  let w1 := run w [OReq pending []; OReplaceJob delayed_spec; OFire; OSyncJob; OReq pending []] in
+  length (d_map (c_delay (v_ctl w1))) = 1%nat /\ d_queue (c_delay (v_ctl w1)) = [] /\
+  (* whereas a timer armed for the OLD incarnation that expires after the re-creation acts on the NEW job *)
+  let w2 := run w [OReq pending []; OReplaceJob delayed_spec; OSyncJob; OReq sync_req []; OFire] in
+  st_phase (v_st w2) = PhRestarting /\ st_retry (v_st w2) = 1.
 Proof. vm_compute. repeat split. Qed.
